@@ -384,8 +384,9 @@ def sched_worker(args):
     (within the preemption bound) of the script thread with the clock thread; delays and work are concrete,
     time is virtual (discrete-event)."""
     from vlib import simsched
-    delays, works, tick = args['delays'], args['works'], args['tick']
-    res = report.WorkResult('clock-thread interleavings delays=%s work=%s tick=%s' % (delays, works, tick))
+    delays, works, tick_setting = args['delays'], args['works'], args['tick']
+    tick = float(tick_setting)        # the setting may be text, as read from a configuration file
+    res = report.WorkResult('clock-thread interleavings delays=%s work=%s tick=%r' % (delays, works, tick_setting))
     world.start_function_trace()
     res.sites.add('interleaving')
     import logging
@@ -398,7 +399,7 @@ def sched_worker(args):
         clock_mod.threading = simsched.ShimThreading
         try:
             simsched.Sched.cur_sched = None
-            world.configure((), extra_settings={'sleep_time': tick})
+            world.configure((), extra_settings={'sleep_time': tick_setting})
             simsched.Sched.cur_sched = s
             TClock = simsched.traced(clock_mod.Clock, ['_keep_going', '_cue_time'])
             c = TClock()
@@ -610,7 +611,7 @@ def run(tier, seed):
         items.append({'kind': 'vm', 'mode': mode, 'text': text, 'sids': sids, 'due': due, 'tag': tag,
                       'max_paths': 2000 if q else 20000, 'budget_s': 25 if q else 200})
     for delays, works in (([0.3, 0.6], [0, 0]), ([0.3, 0.6], [0.1, 0.7]), ([0.25, 0.25, 0.0], [0, 0.3, 0]), ([1.0], [1.5]), ([0.1, 0.1, 0.1], [0, 0, 0])):
-        for tick in (0.25, 0.1, 1.5):
+        for tick in (0.25, 0.1, 1.5, '0.25'):
             items.append({'kind': 'sched', 'delays': delays, 'works': works, 'tick': tick, 'preempt': 2 if q else 3,
                           'max_paths': 1500 if q else 60000, 'budget_s': 20 if q else 300})
     A, B = 'A', 'B'
